@@ -161,6 +161,15 @@ func AcceptOrdinalSaleListing(ctx context.Context, vla *ValidateListingArgs, aso
 		return nil, err
 	}
 
+	// Change adds nothing when the inputs do not cover the fee, so check it is paid.
+	enough, err := tx.EstimateIsFeePaidEnough(asoa.FQ)
+	if err != nil {
+		return nil, err
+	}
+	if !enough {
+		return nil, bt.ErrInsufficientFees
+	}
+
 	//nolint:dupl // TODO: are 2 dummies useful or to be removed?
 	for i, u := range asoa.UTXOs {
 		// skip 2nd input (ordinals input)
